@@ -34,7 +34,7 @@ NT_FLOOR = 0.3
 FUZZ = {"thorough": {"numerical": 15000, "logical": 15000}}
 _uid = itertools.count()
 
-UNITS = {"angle": ["rad", "deg", "mrad"], "len": ["m", "cm", "km", "mm"], "time": ["s", "min", "ms"], "vel": ["m/s", "km/h", "cm/s"], "area": ["m2", "cm2"],
+UNITS = {"freq": ["Hz", "kHz", "s-1"], "angle": ["rad", "deg", "mrad"], "len": ["m", "cm", "km", "mm"], "time": ["s", "min", "ms"], "vel": ["m/s", "km/h", "cm/s"], "area": ["m2", "cm2"],
          "none": [None]}
 REQ_NONE = [None, "%", "%"]      # units a dimensionless RESULT is requested in (operands stay plain numbers)
 CUSTOM = ("clen", "2", "cm")     # $unit clen = 2 cm  -> [clen]
@@ -47,6 +47,7 @@ NODES = {"a": ("float", 10.0, "m"), "b": ("float", 300.0, "cm"), "t": ("float", 
 # integer nodes compared with each other across units: (left, right) -> relation of left to right
 INT_PAIRS = [("plank", "gap", "gt"), ("gap", "plank", "lt"), ("pulse", "window", "eq"), ("window", "pulse", "eq"),
              ("span", "plank", "gt"), ("plank", "span", "lt"), ("gap", "span", "lt")]
+RECIP = {"freq": "time", "time": "freq"}
 NODE_DIM = {"a": "len", "b": "len", "t": "time", "v": "vel", "n": "none", "x": "none"}
 
 
@@ -85,7 +86,9 @@ def expr(dim, custom, depth, positive=False):
             "area": ["atom", "len*len", "sum", "pow(len,2)"],
             "time": ["atom", "sum", "len/vel"],
             "vel": ["atom", "len/time"],
-            "none": ["atom", "atom", "sum", "len/len", "none*none", "fn", "fn_angle", "powi", "par", "time/time"],
+            "none": ["atom", "atom", "sum", "len/len", "none*none", "fn", "fn_angle", "powi", "par", "time/time",
+                     "freq*time", "time*freq"],
+            "freq": ["atom", "atom", "sum", "none/time", "vel/len"],
             "angle": ["atom", "atom", "sum", "angle*none"],
         }[dim]
         r = draw(st.sampled_from(rules))
@@ -119,7 +122,8 @@ def expr(dim, custom, depth, positive=False):
         a, op, b = {"len*none": ("len", "*", "none"), "none*len": ("none", "*", "len"), "area/len": ("area", "/", "len"),
                     "vel*time": ("vel", "*", "time"), "len*len": ("len", "*", "len"), "len/vel": ("len", "/", "vel"),
                     "len/time": ("len", "/", "time"), "len/len": ("len", "/", "len"), "none*none": ("none", "*", "none"),
-                    "time/time": ("time", "/", "time")}[r]
+                    "time/time": ("time", "/", "time"), "freq*time": ("freq", "*", "time"), "time*freq": ("time", "*", "freq"),
+                    "none/time": ("none", "/", "time"), "vel/len": ("vel", "/", "len")}[r]
         left = sub(a)
         right = draw(gen(dim=b, depth=depth - 1, positive=True)) if op == "/" else sub(b)
         # keep the tree's grouping visible in the text: a sum on either side of * / gets parentheses
@@ -134,7 +138,7 @@ def expr(dim, custom, depth, positive=False):
 @st.composite
 def numeric_case(draw):
     custom = draw(st.booleans())
-    dim = draw(st.sampled_from(["len", "len", "none", "area", "time", "vel"]))
+    dim = draw(st.sampled_from(["len", "len", "none", "area", "time", "vel", "none", "freq"]))
     e = draw(expr(dim, custom, draw(st.integers(1, 3))))
     units = (REQ_NONE if dim == "none" else list(UNITS[dim])) + ([f"[{CUSTOM[0]}]"] if custom and dim == "len" else []) + \
         ([f"[{CUSTOM0[0]}]"] if custom and dim == "none" else [])
@@ -143,16 +147,19 @@ def numeric_case(draw):
     unit = draw(st.sampled_from(units))
     wrong_unit = False
     if mism == 0:
-        d2 = draw(st.sampled_from([d for d in ("len", "time", "vel") if d != dim]))
+        # time and frequency are reciprocal dimensions, which the units module converts into each other by
+        # inversion everywhere (C04): a time operand in a frequency sum is not a mismatch of dimensions
+        d2 = draw(st.sampled_from([d for d in ("len", "time", "vel") if d != dim and RECIP.get(dim) != d]))
         other = draw(atom(d2, custom))
     elif mism == 1:
         # the requested unit has another dimension than the result: must be refused, not ignored
-        d2 = draw(st.sampled_from([d for d in ("len", "time", "vel", "none") if d != dim]))
+        d2 = draw(st.sampled_from([d for d in ("len", "time", "vel", "none") if d != dim and RECIP.get(dim) != d]))
         unit = draw(st.sampled_from(["%"] if d2 == "none" else UNITS[d2]))
         wrong_unit = True
     return {"kind": "numeric", "custom": custom, "dim": dim, "expr": e, "unit": unit,
             "mismatch": other, "wrong_unit": wrong_unit, "as_node": draw(st.booleans()),
-            "prelude": custom and draw(st.booleans()), "int_node": draw(st.integers(0, 4)) == 0}
+            "prelude": custom and draw(st.booleans()), "int_node": draw(st.integers(0, 4)) == 0,
+            "after_failed": draw(st.sampled_from([None, None, "ref", "dim"]))}
 
 
 @st.composite
@@ -314,6 +321,33 @@ def evaluate(e, custom):
     return acc
 
 
+def magnitude(e, custom):
+    """Size of the largest intermediate: sums that cancel leave rounding noise proportional to their terms, not to the
+    (possibly zero) result, so the absolute tolerance is scaled with this number."""
+    k = e[0]
+    if k in ("num", "ref"):
+        return abs(evaluate(e, custom))
+    if k == "par":
+        return magnitude(e[1], custom)
+    if k == "fn":
+        x, m = evaluate(e[2], custom), magnitude(e[2], custom)
+        if m > 10 * abs(x) and m > 1e-3:
+            raise ValueError("function of a cancelling sum")
+        return abs(evaluate(e, custom))
+    if k == "pow":
+        return magnitude(e[1], custom) ** e[2]
+    terms = [magnitude(e[1], custom)]
+    for op, x in e[2]:
+        m2 = magnitude(x, custom)
+        if op == "*":
+            terms[-1] = terms[-1] * m2
+        elif op == "/":
+            terms[-1] = terms[-1] / abs(evaluate(x, custom)) * (m2 / abs(evaluate(x, custom)))
+        else:
+            terms.append(m2)
+    return sum(terms)
+
+
 def stats(e, acc=None):
     acc = acc if acc is not None else {"ops": [], "units": set(), "custom": False}
     k = e[0]
@@ -390,9 +424,10 @@ def check_numeric(case, v):
         return v.fail("mismatch-accepted", f"solve({text!r}, {case['unit']!r}) returned {r!r} although dimensions differ")
     try:
         exp_base = evaluate(e, custom)
+        mag_base = magnitude(e, custom)
     except (ZeroDivisionError, OverflowError, ValueError):
         return v.discard("domain-error")
-    if not math.isfinite(exp_base) or abs(exp_base) > 1e200:
+    if not math.isfinite(exp_base) or abs(exp_base) > 1e200 or not math.isfinite(mag_base) or mag_base > 1e200:
         return v.discard("domain-error")
     if case.get("wrong_unit"):
         try:
@@ -436,14 +471,23 @@ def check_numeric(case, v):
         else:
             env = make_env(custom)
             with NumericalSolver(env) as s:
+                if case.get("after_failed"):
+                    # the same solver object was first given an expression it had to refuse part-way
+                    bad = {"ref": f"{text} - {{?undefined_node}}", "dim": f"1 m + {text} + 1 cd + 2 K"}[case["after_failed"]]
+                    try:
+                        s.solve(bad, case["unit"])
+                    except Exception:
+                        pass
+                    v.label("same_solver_after_a_refused_expression")
                 got = s.solve(text, case["unit"])
-            how = f"NumericalSolver.solve({text!r}, {case['unit']!r})"
+            how = f"NumericalSolver.solve({text!r}, {case['unit']!r})" + (" [after a refused expression on the same solver]"
+                                                                        if case.get("after_failed") else "")
         if hasattr(got, "value") and callable(got.value):
             got = got.value()
     except Exception as ex:
         return v.fail("numeric-raised", f"{how} (custom unit defined: {custom}) raised {ex!r}; expected {exp!r}")
     try:
-        ok = close(float(got), exp, 1e-9, 1e-12 * max(1.0, abs(exp)))
+        ok = close(float(got), exp, 1e-9, 1e-12 * max(1.0, abs(exp), mag_base / abs(F(case["unit"], custom))))
     except Exception:
         ok = False
     if not ok:
